@@ -349,6 +349,16 @@ def header_dims(nl):
         return None
 
 
+def header_nopts(nl):
+    try:
+        t = nl.decode('latin-1') if isinstance(nl, bytes) else nl
+        a = t.split('\n')[0]
+        if a[0] not in 'gb': return None
+        return int(a[1:].split()[0]) if a[1:].split() else 0
+    except (ValueError, IndexError, AttributeError):
+        return None
+
+
 def enumerate_cases(tier):
     C = []
     # ---- (a) operator shapes ------------------------------------------------------------------
@@ -460,16 +470,20 @@ def enumerate_cases(tier):
     }
     NM_MODELS = [('ok', OKM, 'ok', {}), ('infeasible', Model(V3, acons=[(None, {0: 1.0}, -INF, 1.0)], lcons=[('lt', N(2), N(1))]), 'infeas', {})]
     for nn, (col, row) in NAMES.items():
+        wellformed = nn in ('absent', 'present', 'only-col', 'only-row', 'long')
+        lab = 'names file with an empty first line' if (col or '').startswith('\n') else 'names file ' + nn
         for lvl in range(4):
             for mn, m, kind, exp in NM_MODELS:
-                C.append(mkcase('names/%s/cvt:names=%d/%s' % (nn, lvl, mn), 'names:%s:cvt:names=%d:%s' % (nn, lvl, mn), kind, nl=m.nl(),
-                                env_opts='cvt:names=%d' % lvl, col=col, row=row, expect=exp))
+                # a malformed names file read by the converter (cvt:names=1,2) is deviating input: any diagnosed outcome
+                C.append(mkcase('names/%s/cvt:names=%d/%s' % (nn, lvl, mn), 'names:%s:cvt:names=%d:%s' % (nn, lvl, mn),
+                                kind if (wellformed or lvl in (0, 3)) else 'input', nl=m.nl(),
+                                env_opts='cvt:names=%d' % lvl, col=col, row=row, expect=exp, siglabel=lab))
         # the solution printer reads the names files itself (wantsol=2|4 without -AMPL)
         for ws in (2, 4, 6, 7):
-            C.append(mkcase('names/%s/print-wantsol=%d' % (nn, ws), 'names:%s:print:wantsol=%d' % (nn, ws), 'ok', nl=OKM.nl(), post=['wantsol=%d' % ws],
-                            col=col, row=row))
-        C.append(mkcase('names/%s/writegraph' % nn, 'names:%s:writegraph' % nn, 'ok', nl=OKM.nl(), env_opts='cvt:names=2 writegraph=g.jsonl',
-                        col=col, row=row))
+            C.append(mkcase('names/%s/print-wantsol=%d' % (nn, ws), 'names:%s:print:wantsol=%d' % (nn, ws), 'ok' if wellformed else 'input',
+                            nl=OKM.nl(), post=['wantsol=%d' % ws], col=col, row=row, siglabel=lab))
+        C.append(mkcase('names/%s/writegraph' % nn, 'names:%s:writegraph' % nn, 'ok' if wellformed else 'input', nl=OKM.nl(),
+                        env_opts='cvt:names=2 writegraph=g.jsonl', col=col, row=row, siglabel=lab))
     # ---- scripted solver answers -----------------------------------------------------------------
     for code in (0, 100, 200, 300, 400, 500, 999):
         for xs in ('ramp', 'none'):
@@ -528,8 +542,7 @@ def run_once(binary, c, wd, timeout, fsize=None):
         stubname = 'a' * 252          # 'a'*252 + '.nl' = 255 = NAME_MAX ; + '.sol' = 256 > NAME_MAX
     stubp = os.path.join(wd, stubname)
     if sm == 'too_long':
-        d = wd
-        os.makedirs(os.path.join(*([wd] + ['d' * 200] * 21)))
+        # the directories are not created: every open() of the path fails with ENAMETOOLONG (> PATH_MAX) anyway
         stubp = os.path.join(*([wd] + ['d' * 200] * 21 + ['m']))
     if sm == 'component_is_file':
         open(os.path.join(wd, 'f'), 'w').write('x')
@@ -679,7 +692,7 @@ def judge(c, r, fault_k=None):
     want = wants_sol(c)
     hd = header_dims(r['nl']) if r['nl'] is not None else None
     ft = (c.get('fault') or {}).get('type')
-    faulted = fault_k is not None or ft in ('sol-is-dir', 'sol-name-too-long', 'sol-dangling-symlink', 'sol-dev-full', 'sol-symlink-loop')
+    faulted = (fault_k is not None and fault_k < (c.get('fault') or {}).get('n', 1 << 60)) or ft in ('sol-is-dir', 'sol-name-too-long', 'sol-dangling-symlink', 'sol-dev-full', 'sol-symlink-loop')
     sol_written = isinstance(sol, bytes)
     if ft == 'sol-readonly-file-ok':
         pass
@@ -719,12 +732,18 @@ def judge(c, r, fault_k=None):
         return 'nosol,exit!=0,stderr', P
     # ------------------------------------------------------------------ a .sol exists
     text = sol.decode('latin-1')
+    if header_nopts(r['nl']) == 0:
+        # mp writes the keyword 'Options' without a count for an NL header with 0 AMPL options (a .sol format question that
+        # belongs to C05); the reference parser is given the count it expects
+        text = text.replace('\nOptions\n', '\nOptions\n0\n', 1)
     try:
         ps = vdriverlib.parse_sol(text)
         perr = None
     except (ValueError, IndexError) as e:
         ps, perr = None, '%s: %s' % (type(e).__name__, str(e)[:80])
-    if ps is None or (not text.endswith('\n')):
+    fz = c.get('fault') or {}
+    short = fz.get('type') == 'fsize' and fault_k is not None and len(sol) < fz['n']
+    if ps is None or (not text.endswith('\n')) or short:
         if faulted:
             if rc == 0:
                 bad('C09 truncated .sol with exit 0 (write failure at offset k)', sol_len=len(sol), parse_error=perr)
@@ -740,6 +759,9 @@ def judge(c, r, fault_k=None):
         bad('C09 stale .sol content survived: ' + sig_label(c))
     code, msg = ps['code'], ps['message']
     rep = failure_kind(msg)
+    scripted = int((c.get('script') or {}).get('code', 0))
+    if rep is None and code is not None and code != scripted and not (200 <= code <= 299) and c['kind'] not in ('answer_odd',):
+        rep = 'other failure'
     # dimensions
     if hd is not None:
         nv, nc = hd
@@ -761,8 +783,7 @@ def judge(c, r, fault_k=None):
     if rep == 'infeasibility proven during conversion':
         oc += ',infeasible'
         if not code_in(200, 299):
-            bad('C09 infeasibility proven during conversion reported with solve code class %s (expected 200-299)%s' % (
-                codeclass(code), ' [raised inside PropagateResult wrapper]' if 'propagating result' in msg else ''),
+            bad('C09 infeasibility proven during conversion reported with solve code class %s (expected 200-299)' % codeclass(code),
                 code=code, message=msg[-300:])
     elif rep == 'solution check violation':
         oc += ',solution-check'
@@ -837,8 +858,8 @@ def failure_kind(msg):
         body = ne[-1] if ne else ''
     if re.search(r'MaxAbs \[Name\]', body): return 'solution check violation'
     if re.search(r'Model infeasible', body): return 'infeasibility proven during conversion'
+    if re.search(r'\.(nl|col|row):\d+:\d+: |\.nl: |duplicate suffix', body): return 'NL read error'
     if re.search(r'(?i)\bunsupported\b|not implemented', body): return 'unsupported construct'
-    if re.search(r'\.nl:\d+:\d+: |\.nl: |\.(col|row)\b.*(cannot|error)', body): return 'NL read error'
     if re.search(r'(?i)unknown option|invalid value|for option|Option "[^"]*" doesn|option name|option file|obj(no|:no)', body): return 'invalid option'
     if re.search(r'(?i)\bbound|big-?M|finite', body): return 'missing bounds'
     if re.search(r'(?i)error|fail|cannot|not supported|exception|bad_alloc|invalid|expected', body): return 'other failure'
@@ -855,6 +876,8 @@ def wantsol_value(c):
 
 def sig_label(c):
     """stable label of the failing input class for signatures"""
+    if c.get('siglabel'):
+        return c['siglabel']
     fam = c['id'].split('/')[0]
     if fam == 'malformed':
         return c['cls']
@@ -884,30 +907,43 @@ def work(args):
     idx, c, tier, bins = args
     binary = bins[c.get('variant', 'plain')]
     wd = os.path.join(WORK, tier, '%06d' % idx)
-    res = []
     try:
-        ft = (c.get('fault') or {}).get('type')
-        if ft == 'fsize-all':
-            r0 = run_once(binary, c, wd, HORIZON)
-            oc0, P0 = judge(c, r0)
-            res.append({'id': c['id'], 'cls': c['cls'] + ':fault-free', 'oc': oc0, 'P': P0, 'rc': r0['rc'], 'timeout': r0['rc'] == 'timeout', 'fault': False,
-                        'sample': None, 'code': sol_code(r0)})
-            n = len(r0['sol']) if isinstance(r0['sol'], bytes) else 0
-            for k in range(0, n + 1):
-                r = run_once(binary, c, wd, HORIZON, fsize=k)
-                oc, P = judge(c, r, fault_k=k)
-                res.append({'id': c['id'] + '@%d' % k, 'cls': c['cls'] + (':k<len' if k < n else ':k=len'), 'oc': oc, 'P': P, 'rc': r['rc'],
-                            'timeout': r['rc'] == 'timeout', 'fault': k < n, 'sample': None, 'code': sol_code(r), 'k': k})
-        else:
-            r = run_once(binary, c, wd, HORIZON)
-            oc, P = judge(c, r)
-            res.append({'id': c['id'], 'cls': c['cls'], 'oc': oc, 'P': P, 'rc': r['rc'], 'timeout': r['rc'] == 'timeout',
-                        'fault': bool(ft) or c['id'].startswith('fault/'), 'code': sol_code(r),
-                        'sample': {'case': c['id'], 'argv': c['pre'] + ['<stub>'] + c['post'], 'options': c.get('env_opts'), 'rc': r['rc'], 'outcome': oc,
-                                   'sol_message': (sol_msg(r) or '')[:160]}})
+        f = c.get('fault') or {}
+        k = f.get('k') if f.get('type') == 'fsize' else None
+        r = run_once(binary, c, wd, HORIZON, fsize=k)
+        oc, P = judge(c, r, fault_k=k)
+        res = {'id': c['id'], 'cls': c['cls'], 'oc': oc, 'P': P, 'rc': r['rc'], 'timeout': r['rc'] == 'timeout',
+               'fault': is_fault(c), 'code': sol_code(r), 'sol_len': len(r['sol']) if isinstance(r['sol'], bytes) else None,
+               'sample': {'case': c['id'], 'argv': c['pre'] + ['<stub>'] + c['post'], 'options': c.get('env_opts'), 'rc': r['rc'], 'outcome': oc,
+                          'sol_message': (sol_msg(r) or '')[:160]}}
     finally:
         shutil.rmtree(wd, ignore_errors=True)
     return idx, res
+
+
+def is_fault(c):
+    f = c.get('fault') or {}
+    if f.get('type') == 'fsize':
+        return f['k'] < f['n']
+    return bool(f.get('type')) or c['id'].replace('san:', '').startswith('fault/')
+
+
+def expand_fsize(cases, tier, bins):
+    """for every 'fsize-all' case: one fault-free run gives the length n of the .sol; then one case per byte offset k in 0..n"""
+    out = []
+    for c in cases:
+        if (c.get('fault') or {}).get('type') != 'fsize-all':
+            out.append(c)
+            continue
+        c0 = dict(c, fault=None, cls=c['cls'] + ':fault-free')
+        wd = os.path.join(WORK, tier, 'fsize-ref')
+        r0 = run_once(bins[c.get('variant', 'plain')], c0, wd, HORIZON_ALONE)
+        shutil.rmtree(wd, ignore_errors=True)
+        n = len(r0['sol']) if isinstance(r0['sol'], bytes) else 0
+        out.append(c0)
+        for k in range(n + 1):
+            out.append(dict(c, id='%s@%d' % (c['id'], k), cls=c['cls'] + (':k<len' if k < n else ':k=len'), fault={'type': 'fsize', 'k': k, 'n': n}))
+    return out
 
 
 def sol_code(r):
@@ -963,6 +999,7 @@ def main(tier, seed):
             cases.append(c2)
     shutil.rmtree(os.path.join(WORK, tier), ignore_errors=True)
     os.makedirs(os.path.join(WORK, tier), exist_ok=True)
+    cases = expand_fsize(cases, tier, bins)
     results = run_all(cases, tier, bins)
     absorb(chk, cases, results, tier, bins)
     shutil.rmtree(os.path.join(WORK, tier), ignore_errors=True)
@@ -998,23 +1035,22 @@ ASSUMPTIONS = [
 
 def run_all(cases, tier, bins):
     jobs = [(i, c, tier, bins) for i, c in enumerate(cases)]
-    # long jobs (all truncation points) first
-    jobs.sort(key=lambda j: 0 if (j[1].get('fault') or {}).get('type') == 'fsize-all' else 1)
     out = {}
     with ProcessPoolExecutor(max_workers=vcheck.NCPU) as ex:
-        for idx, res in ex.map(work, jobs, chunksize=4):
-            out[idx] = res
-    # timeouts: re-run alone with the long horizon
+        for idx, res in ex.map(work, jobs, chunksize=8):
+            out[idx] = [res]
+    # timeouts: re-run alone with the long horizon before calling it a hang
     for idx, res in sorted(out.items()):
-        for k, r in enumerate(res):
-            if r['timeout']:
-                c = cases[idx]
-                wd = os.path.join(WORK, tier, 'alone')
-                fk = r.get('k')
-                rr = run_once(bins[c.get('variant', 'plain')], c, wd, HORIZON_ALONE, fsize=fk if (r['fault'] or fk is not None) and fk is not None else None)
-                oc, P = judge(c, rr, fault_k=fk if r.get('k') is not None and r['fault'] else None)
-                r.update({'oc': oc + ',slow', 'P': P, 'rc': rr['rc'], 'timeout': rr['rc'] == 'timeout', 'code': sol_code(rr)})
-                shutil.rmtree(wd, ignore_errors=True)
+        r = res[0]
+        if r['timeout']:
+            c = cases[idx]
+            wd = os.path.join(WORK, tier, 'alone')
+            f = c.get('fault') or {}
+            k = f.get('k') if f.get('type') == 'fsize' else None
+            rr = run_once(bins[c.get('variant', 'plain')], c, wd, HORIZON_ALONE, fsize=k)
+            oc, P = judge(c, rr, fault_k=k)
+            r.update({'oc': oc + ',slow', 'P': P, 'rc': rr['rc'], 'timeout': rr['rc'] == 'timeout', 'code': sol_code(rr)})
+            shutil.rmtree(wd, ignore_errors=True)
     return out
 
 
@@ -1042,14 +1078,14 @@ def absorb(chk, cases, results, tier, bins):
                 a['n'] += 1
                 if len(a['cases']) < 8:
                     a['cases'].append(r['id'])
-                if 'fault_offset' in det:
+                if det.get('fault_offset') is not None:
                     a.setdefault('offsets', []).append(det['fault_offset'])
     for sig, a in sorted(agg.items()):
         det = dict(a['first']); det['count'] = a['n']; det['cases'] = a['cases']
         if 'offsets' in a:
             det['fault_offsets'] = '%d offsets, min %d max %d' % (len(a['offsets']), min(a['offsets']), max(a['offsets']))
             det.pop('fault_offset', None)
-        chk.violation(sig, det, {'tier': tier, 'case': a['first_case'], 'fault_offset': a['first'].get('fault_offset')})
+        chk.violation(sig, det, {'tier': tier, 'case': a['first_case']})
     chk.cov['_classes'] = classes
     chk.set('evaluations', nrun)
     chk.set('runs_per_family', fam_counts)
@@ -1073,18 +1109,24 @@ def replay(path):
     cid = rp['case']
     variant = 'san' if cid.startswith('san:') else 'plain'
     bins = build((variant,))
-    cs = [c for c in enumerate_cases(tier) if c['id'] == cid.replace('san:', '')]
+    base = cid.replace('san:', '')
+    mk = re.match(r'^(fault/fsize/[^@]+)@(\d+)$', base)
+    cs = [c for c in enumerate_cases(tier) if c['id'] == (mk.group(1) if mk else base)]
     if not cs:
         print('case not found: ' + cid); return 2
+    os.makedirs(os.path.join(WORK, 'replay'), exist_ok=True)
+    if mk:
+        cs = [c for c in expand_fsize(cs, 'replay', bins) if c['id'] == base]
     c = dict(cs[0]); c['variant'] = variant
-    wd = os.path.join(WORK, 'replay')
-    k = rp.get('fault_offset')
+    wd = os.path.join(WORK, 'replay', 'run')
+    f = c.get('fault') or {}
+    k = f.get('k') if f.get('type') == 'fsize' else None
     r = run_once(bins[variant], c, wd, HORIZON_ALONE, fsize=k)
     oc, P = judge(c, r, fault_k=k)
-    shutil.rmtree(wd, ignore_errors=True)
-    print(json.dumps({'case': cid, 'argv': c['pre'] + ['<stub>'] + c['post'], 'options': c.get('env_opts'), 'rc': r['rc'], 'outcome': oc,
+    shutil.rmtree(os.path.join(WORK, 'replay'), ignore_errors=True)
+    print(json.dumps({'case': cid, 'argv': c['pre'] + ['<stub>'] + c['post'], 'options': c.get('env_opts'), 'fault': f or None, 'rc': r['rc'], 'outcome': oc,
                       'stdout': r['out'][-500:], 'stderr': r['err'][-1500:], 'sol': r['sol'].decode('latin-1')[:1500] if isinstance(r['sol'], bytes) else r['sol'],
-                      'problems': [p[0] for p in P]}, indent=1))
+                      'problems': [p_[0] for p_ in P]}, indent=1))
     return 1 if P else 0
 
 
@@ -1096,6 +1138,7 @@ if __name__ == '__main__':
     cs = [dict(c, variant=variant) for c in enumerate_cases(tier) if re.search(rx, c['id'])]
     print(len(cs), 'cases')
     os.makedirs(os.path.join(WORK, 'x'), exist_ok=True)
+    cs = expand_fsize(cs, 'x', bins)
     out = run_all(cs, 'x', bins)
     tab = {}
     for idx in sorted(out):
